@@ -80,7 +80,7 @@ func expect(c TCase) (outcome int, block bool, why string) {
 		return 0, false, "peer races with the limit"
 	case unlimited:
 		return +1, true, "no peer until the harness acts: the call must wait"
-	case c.Limit == "short" || c.Limit == "before":
+	case c.Limit == "short" || c.Limit == "before" || c.Limit == "tiny":
 		return -1, false, "nobody ever acts, the limit must end the call with false"
 	case c.Limit == "later":
 		return -1, true, "nobody ever acts; the call must wait for the cancellation and then return false"
@@ -106,6 +106,8 @@ func RunTimed(c TCase) pbt.Outcome {
 		timeout = 0
 	case "short":
 		timeout = time.Millisecond
+	case "tiny":
+		timeout = time.Duration(1+c.DelayUs) * 100 * time.Nanosecond // 0.1 .. 6 us: of the order of a spin phase
 	case "long":
 		timeout = time.Hour
 	case "race":
@@ -236,7 +238,21 @@ func RunTimed(c TCase) pbt.Outcome {
 	}
 	// wait for the call to return; a call that never returns is judged from its goroutine state
 	deadline := time.Now().Add(30 * time.Second)
+	early := time.Now().Add(60 * time.Millisecond)
 	for !isDone() {
+		if c.Limit == "tiny" && time.Now().After(early) {
+			// a POSITIVE limit waits in a select with a timer; a goroutine in a bare channel operation (seen twice) is on the
+			// wait-without-limit path: decided from the state, not from the clock
+			early = time.Now().Add(60 * time.Millisecond)
+			if gs := gstate.With("chans." + c.Fn); len(gs) > 0 && (gs[0].State == "chan send" || gs[0].State == "chan receive") {
+				id, st := gs[0].ID, gs[0].State
+				time.Sleep(3 * time.Millisecond)
+				if !isDone() && gstate.StateOf(id) == st {
+					cleanup()
+					return pbt.Fail("%s with a positive limit of %v is blocked in a bare %q (no timer involved): it waits without limit", c.Fn, timeout, st)
+				}
+			}
+		}
 		if time.Now().After(deadline) {
 			gs := gstate.With("chans." + c.Fn)
 			st := ""
@@ -358,7 +374,7 @@ func genTimed(t *rapid.T) TCase {
 		c.Closed = rapid.IntRange(0, 3).Draw(t, "closed") == 0
 	}
 	if c.Fn == "SendTimeout" || c.Fn == "RecvTimeout" {
-		c.Limit = rapid.SampledFrom([]string{"neg", "zero", "short", "long", "race", "race"}).Draw(t, "limit")
+		c.Limit = rapid.SampledFrom([]string{"neg", "zero", "short", "long", "race", "race", "tiny", "tiny"}).Draw(t, "limit")
 	} else {
 		c.Limit = rapid.SampledFrom([]string{"never", "before", "later", "race", "race"}).Draw(t, "limit")
 	}
@@ -368,6 +384,9 @@ func genTimed(t *rapid.T) TCase {
 	}
 	if c.Limit == "race" || c.Limit == "neg" {
 		c.DelayUs = rapid.SampledFrom([]int{0, 20, 80, 300}).Draw(t, "delay")
+	}
+	if c.Limit == "tiny" {
+		c.DelayUs = rapid.IntRange(0, 59).Draw(t, "tenths")
 	}
 	if !isSend(c.Fn) && !c.Closed && c.Fill == 0 && rapid.IntRange(0, 3).Draw(t, "closer") == 0 {
 		c.Peer = "closer"
@@ -389,7 +408,7 @@ func genTimed(t *rapid.T) TCase {
 
 var specTimed = pbt.Register(&pbt.Spec[TCase]{
 	Property: "C19", Name: "C19.timed",
-	Rule: "E5 scenarios: fn in {SendTimeout,SendContext,RecvTimeout,RecvContext} x capacity 0..3 x fill x closed? x limit {<=0, 1ms, 1h, racing timer; ctx never/before/cancelled-once-blocked/racing} x peer {none, gated, delayed-racing, closing the channel around the expiry (receivers)}. " +
+	Rule: "E5 scenarios: fn in {SendTimeout,SendContext,RecvTimeout,RecvContext} x capacity 0..3 x fill x closed? x limit {<=0, 0.1..6 us (a positive limit seen waiting in a bare channel operation = waits without limit), 1ms, 1h, racing timer; ctx never/before/cancelled-once-blocked/racing} x peer {none, gated, delayed-racing, closing the channel around the expiry (receivers)}. " +
 		"Oracle: conservation on the far side (Send true <=> the value is found exactly once in peer receptions + buffer, false <=> not found; Recv (v,true) <=> v was the FIFO head and left the channel, (zero,false) <=> contents unchanged), " +
 		"forced outcomes in the asymmetric classes (space & unlimited => true; nobody ever acts & 1ms/cancelled => false; closed+drained => false), 'must not return yet' asserted only while the harness itself withholds the peer " +
 		"(established from the call's goroutine state, never from a timer); either outcome where operation and limit can both be ready; non-trivial = forced-false, either-outcome or must-block class",
